@@ -130,6 +130,20 @@ PROPS = {
         ],
         "disabled": "generated check for C08 not built yet; only regression cases exist",
     },
+    "C10": {
+        "level": "exploration", "sim": True,
+        "technique": "property-based testing (rapid, stateful histories): generated parent life cycles; oracle = invariants over the simulator's request log and the webhook log evaluated after every sync",
+        "level_text": "parent life cycles (create, match/unmatch, delete with each propagation policy, finalize hook added/removed, GC progress, faults on the finalizer write) are generated as operation sequences and every sync is judged by a monitor that recomputes which hook must be called, whether children may be touched and when the finalizer may go",
+        "rule": ("rapid-generated histories of 3-9 operations over one parent: sync (optionally with a 500 or a real conflict on the finalizer write), toggle the controller-selector label, delete (plain/Background/Foreground/Orphan), "
+                 "add/remove the finalize hook (controller rebuilt), change a revisioned field (several live revisions for rolling composites), GC finalizer removed; hook answers: finalized iff no children / always / never / depending on the revision, children dropped all at once / kept / step by step; "
+                 "composite and decorator; non-trivial = a sync ran while the parent was deleting or unmatched with a finalize hook configured; distinct = distinct choice sequences"),
+        "jobs": [
+            {"name": "c10-composite", "pkg": COMPOSITE, "tests": ["TestVerifC10Composite"],
+             "checks": {"quick": 3000, "thorough": 150000}, "shards": {"quick": 6, "thorough": 8}},
+            {"name": "c10-decorator", "pkg": DECORATOR, "tests": ["TestVerifC10Decorator"],
+             "checks": {"quick": 2000, "thorough": 80000}, "shards": {"quick": 4, "thorough": 6}},
+        ],
+    },
     "C11": {
         "level": "exploration", "sim": True,
         "technique": "property-based testing (rapid): generated hook status values, stale/replaced parents and faults injected on the status write; oracle = parent object diff per accepted write + expected status recomputed from the hook exchange",
